@@ -130,16 +130,31 @@ func VerifC05_Linear() {
 	var other seq.Sequence
 	var otherModel *verifModel
 	for step := 0; step < nops; step++ {
-		switch verifChoice("op"+string(rune('0'+step)), 4) {
+		switch verifChoice("op"+string(rune('0'+step)), 5) {
+		case 4: // append one letter to the current sequence (spare capacity must not be shared with a clone)
+			nl := verifPaired("app"+string(rune('0'+step)), comp)
+			nq := alphabet.Qphred(verifByte("appq"+string(rune('0'+step)), 0, 93))
+			if qual {
+				verifAssert(s.(*QSeq).AppendQLetters(alphabet.QLetter{L: nl, Q: nq}) == nil, "append-succeeds")
+			} else {
+				verifAssert(s.(*Seq).AppendLetters(nl) == nil, "append-succeeds")
+				nq = seq.DefaultQphred
+			}
+			m.l, m.q = append(m.l, nl), append(m.q, nq)
 		case 0:
 			s.RevComp()
 			m.revcomp(comp)
 		case 1:
 			s.Reverse()
 			m.reverse()
-		case 2: // clone, keep the original aside, continue on the copy
-			other, otherModel = s, m.clone()
-			s = s.Clone().(seq.Sequence)
+		case 2: // clone; continue on the copy or on the original, the other one is kept aside
+			c := s.Clone().(seq.Sequence)
+			if verifChoice("which"+string(rune('0'+step)), 2) == 0 {
+				other, otherModel = s, m.clone()
+				s = c
+			} else {
+				other, otherModel = c, m.clone()
+			}
 		case 3:
 			if n == 0 {
 				continue
